@@ -27,6 +27,14 @@ type Named struct {
 	Name  string `json:"name"`
 	Text  string `json:"text"`
 	Regex bool   `json:"regex,omitempty"` // a regex schema instead of a JSight schema
+	File  string `json:"file,omitempty"`  // file name of the type's schema when it differs from Name
+}
+
+func (n Named) FileName() string {
+	if n.File != "" {
+		return n.File
+	}
+	return n.Name
 }
 
 // Project is the textual form of "root schema + registered types + registered enum rules".
@@ -214,9 +222,9 @@ func Build(p Project) *Built {
 		t := t
 		var ts schema.Schema
 		if t.Regex {
-			ts = regex.New(t.Name, t.Text)
+			ts = regex.New(t.FileName(), t.Text)
 		} else {
-			js := jschema.New(t.Name, t.Text)
+			js := jschema.New(t.FileName(), t.Text)
 			// a type may use enum rules too
 			for _, r := range p.Rules {
 				r := r
@@ -256,6 +264,7 @@ type Outcome struct {
 	UsedErr     *ErrInfo            `json:"used_err,omitempty"`
 	OpenAPI     string              `json:"openapi,omitempty"`
 	OpenAPIErr  string              `json:"openapi_err,omitempty"`
+	Properties  []string            `json:"properties,omitempty"` // openapi.Dereference -> PropertiesInfos: key:optional
 	TypeOpenAPI map[string]string   `json:"type_openapi,omitempty"`
 	Escapes     []Escape            `json:"escapes,omitempty"`
 }
@@ -302,6 +311,15 @@ func ObserveBuilt(b *Built) *Outcome {
 			o.OpenAPI = string(j)
 			if err != nil {
 				o.OpenAPIErr = err.Error()
+			}
+		})
+		b.trap("Dereference", func() {
+			for _, inf := range openapi.Dereference(s) {
+				if oi, ok := inf.(openapi.ObjectInformer); ok {
+					for _, pi := range oi.PropertiesInfos() {
+						o.Properties = append(o.Properties, fmt.Sprintf("%s:%v", pi.Key(), pi.Optional()))
+					}
+				}
 			}
 		})
 		names := make([]string, 0, len(b.Types))
